@@ -438,19 +438,31 @@ func c15R4(p *core.Program, r *core.Report) {
 	}
 	info := in.Info()
 	g := graph(in)
-	isPkgPathOfX := func(e ast.Expr) bool {
+	isPkgPathFieldOfX := func(e ast.Expr) bool {
 		sel, ok := ast.Unparen(e).(*ast.SelectorExpr)
 		return ok && sel.Sel.Name == "PkgPath" && core.VarOf(info, sel.X) == x
 	}
+	// the node's path as a value: x.PkgPath, or a local read from it once (the snapshot is taken before the
+	// node is rewritten, which is the last thing a visit does)
+	isPkgPathOfX := func(e ast.Expr) bool {
+		if isPkgPathFieldOfX(e) {
+			return true
+		}
+		if v := core.VarOf(info, e); v != nil && !v.IsField() {
+			if d, ok := core.SingleDef(info, in.Root().Body, v); ok && d.Index < 0 {
+				return isPkgPathFieldOfX(d.Rhs)
+			}
+		}
+		return false
+	}
 	isOwnPkg := func(e ast.Expr) bool {
-		f := core.FieldOf(info, e)
-		return f != nil && f.Name() == "pkgPath"
+		return isRole(p, core.FieldOf(info, e), "namer.pkgPath")
 	}
 	isEmpty := func(e ast.Expr) bool { return constStrIs(info, e, "") }
 	var blank, rewrite *ast.AssignStmt
 	ast.Inspect(body, func(n ast.Node) bool {
 		as, ok := n.(*ast.AssignStmt)
-		if !ok || len(as.Lhs) != 1 || !isPkgPathOfX(as.Lhs[0]) {
+		if !ok || len(as.Lhs) != 1 || !isPkgPathFieldOfX(as.Lhs[0]) {
 			return true
 		}
 		if constStrIs(info, as.Rhs[0], "") {
